@@ -17,6 +17,7 @@ mod c10;
 mod c11;
 mod c14;
 mod c15;
+mod c17;
 mod c16;
 mod c18;
 pub mod util;
@@ -75,6 +76,9 @@ fn run_lines() {
             "sub" => c11::sub(&mut t),
             "upd" => c14::upd(&mut t),
             "schema" => c15::schema(&mut t),
+            "authz" => c17::authz(&mut t),
+            "ro" => c17::ro(&mut t),
+            "authzdbg" => c17::authzdbg(&mut t),
             "ltx" => c07::ltx(&mut t),
             "ctx" => c07::ctx(&mut t),
             "partners" => c16::partners(&mut t),
